@@ -358,6 +358,16 @@ func verifC12Run(t *testing.T, vc *verifCtx, dir string, i int,
 	// when it decided to broadcast (our commitment + dangling remote).
 	bview := func(h *verifCCHtlc) (string, bool) {
 		if !broadcast {
+			// No broadcast-time view. Still fingerprint the one
+			// case in which lnd's own classification depends on
+			// map iteration order: the HTLC is carried by both
+			// remote commitments with different dust-ness.
+			if !h.OnL && c.WithPending && h.OnR && h.OnP &&
+				h.DustR != h.DustP {
+
+				return "none-remote-mixed", false
+			}
+
 			return "none", false
 		}
 		// past: the HTLC itself was due at the broadcast height.
@@ -840,7 +850,7 @@ func TestVerifC12(t *testing.T) {
 	dir := verifCCScratch(t)
 
 	// Part 1: full arbitrator runs.
-	total := vc.N(5000, 300000)
+	total := vc.N(5000, 2000000)
 	for i := 0; i < total; i++ {
 		if !vc.Mine(i) {
 			continue
